@@ -83,13 +83,15 @@ def run(ctx):
         num = float(mo.group(1)); un = mo.group(2) or ''
         ctx.corr('styleFromList', {'specs': specs, 'spacing': spacing, 'show_all': show}, model_view(m[1], num, un) if m[0] == 'Ok' else ['Raise', m[1]], impl)
         # string form with a delimiter that occurs in no specification
-        delims = [c for c in ',;|/~\t' if all(c not in s for s in specs)]
+        delims = [c for c in [',', ';', '|', '/', '~', '\t', '.', '$', '^', '*', '+', '?', '\\', '[', '(', ')', '#', '!', ' ', '::', '{', '-'] if all(c not in s for s in specs)]
         if delims:
-            dl = ctx.rng.choice(delims)
+            dl = delims[i % len(delims)] if i % 2 else ctx.rng.choice(delims)          # every delimiter in turn, and random ones
             try: impl2 = describe(E.styleFromString('L%d' % i, dl.join(specs), dl, spacing, show))
             except Exception as e: impl2 = ['Raise', type(e).__name__]
-            m2 = d.call('el_fromstring', sx_str(dl.join(specs)), str(ord(dl)), '1' if show else '0')
-            ctx.corr('styleFromString', {'specs': specs, 'delim': dl}, model_view(m2[1], num, un) if m2[0] == 'Ok' else ['Raise', m2[1]], impl2)
+            if impl2 != impl:          # the string form is the list form of its pieces, whatever the delimiter
+                ctx.violation('string-form-differs', {'specs': specs, 'delimiter': dl, 'spacing': spacing, 'show_all': show}, impl2, impl, {'delimiter': dl})
+            m2 = d.call('el_fromstring', sx_str(dl.join(specs)), str(ord(dl)), '1' if show else '0') if len(dl) == 1 else None
+            if m2 is not None: ctx.corr('styleFromString', {'specs': specs, 'delim': dl}, model_view(m2[1], num, un) if m2[0] == 'Ok' else ['Raise', m2[1]], impl2)
         # ---- oracle: the property on the real result --------------------------------------
         ctx.oracle_cases += 1
         case = {'specs': specs, 'spacing': spacing, 'show_all': show}
